@@ -614,7 +614,28 @@ def mido_file_from_events(file_ppq, tracks):
             elif ty == 5:
                 tr.append(mido.Message("program_change", channel=ch, program=prog, time=delta))
             else:
-                tr.append(mido.MetaMessage("marker", text="x", time=delta))
+                # an event the library does not interpret; it still carries delta time.  Which kind of event it is
+                # is chosen by the (otherwise unused) control field of the plain event.
+                kind = (ctl or 0) % 9
+                if kind == 0:
+                    tr.append(mido.MetaMessage("marker", text="x", time=delta))
+                elif kind == 1:
+                    tr.append(mido.MetaMessage("text", text="t", time=delta))
+                elif kind == 2:
+                    tr.append(mido.MetaMessage("set_tempo", tempo=500000, time=delta))
+                elif kind == 3:
+                    tr.append(mido.Message("sysex", data=[1, 2, 3], time=delta))
+                elif kind == 4:
+                    tr.append(mido.MetaMessage("sequencer_specific", data=[0, 1], time=delta))
+                elif kind == 5:
+                    # (not UnknownMetaMessage: mido's own file codec does not keep its delta time)
+                    tr.append(mido.MetaMessage("cue_marker", text="c", time=delta))
+                elif kind == 6:
+                    tr.append(mido.Message("pitchwheel", channel=ch or 0, pitch=100, time=delta))
+                elif kind == 7:
+                    tr.append(mido.Message("aftertouch", channel=ch or 0, value=10, time=delta))
+                else:
+                    tr.append(mido.MetaMessage("lyrics", text="la", time=delta))
         mf.tracks.append(tr)
     return mf
 
@@ -633,6 +654,11 @@ def _enc_midi_ev(ev):
         ty = 1
     kidx = None if key is None else KEY_IDX[MusicMapping.KeyKeyMapping[key]] if key in MusicMapping.KeyKeyMapping else -7
     ch_w = None if ty in (1, 2, 3) else ch
+    if ty == 1:
+        # the kind of uninterpreted event is the harness's business, not the model's — except that channel messages
+        # (pitch wheel, aftertouch) carry a channel, which the loader may pick up as its default channel
+        ch_w = (ch or 0) if (ctl or 0) % 9 in (6, 7) else None
+        ctl = None
     return [w(ty), w(ch_w), w(delta), w(note), w(vel), w(ctl), w(prog), w(num), w(den), w(kidx)]
 
 
